@@ -116,9 +116,12 @@ func parseTimestamp(lt lokiapi.LokiTime, def time.Time) (time.Time, error) {
 		return def, nil
 	}
 
-	if sec, frac, ok := strings.Cut(value, "."); ok && isDigits(sec) && isDigits(frac) && len(frac) <= 9 {
+	if sec, frac, ok := strings.Cut(value, "."); ok && isDigits(sec) && isDigits(frac) {
 		// Decimal seconds: every digit of the fraction counts, down to the nanosecond
-		// (float64 cannot hold them all).
+		// (float64 cannot hold them all); digits below a nanosecond are dropped.
+		if len(frac) > 9 {
+			frac = frac[:9]
+		}
 		s, serr := strconv.ParseInt(sec, 10, 64)
 		ns, nerr := strconv.ParseInt(frac+strings.Repeat("0", 9-len(frac)), 10, 64)
 		if serr == nil && nerr == nil {
